@@ -11,6 +11,7 @@ for p in sorted(glob.glob("/verif/seeded/*/meta.json")):
                                              (m.get("needs") or "")[:110].replace("|", "/").replace("\n", " "), caught + ((" (not by " + missed + ")") if missed else "")))
 tbl = "| id | property | change | needs | caught by (quick tier) |\n|---|---|---|---|---|\n" + "\n".join(rows) + "\n"
 s = open("/verif/DESIGN.md").read()
-s = re.sub(r"<!-- SEEDED-TABLE-BEGIN -->.*<!-- SEEDED-TABLE-END -->", "<!-- SEEDED-TABLE-BEGIN -->\n" + tbl + "<!-- SEEDED-TABLE-END -->", s, flags=re.S)
+new = "<!-- SEEDED-TABLE-BEGIN -->\n" + tbl + "<!-- SEEDED-TABLE-END -->"
+s = re.sub(r"<!-- SEEDED-TABLE-BEGIN -->.*<!-- SEEDED-TABLE-END -->", lambda m: new, s, flags=re.S)
 open("/verif/DESIGN.md", "w").write(s)
 print(len(rows), "rows")
